@@ -158,6 +158,24 @@ def oracle(ctx):
                      float(g), 5.0 / 6.0)
     except Exception as e:
         ctx.fail("oracle", "quadgrad:aliased-explicit-params:exception", {}, repr(e)[:300], "5/6")
+    # an integrand that branches on x and ignores the parameter on part of the interval (in particular at the limits): the
+    # gradient is still the same-rule integral of the derivative (round-3 seed C13/9: the backward probed the integrand at xl
+    # and returned zeros when that value carried no graph)
+    import numpy as _np
+    for (lo_b, hi_b, nb) in ((0.0, 1.0, 8), (0.2, 2.0, 11)):
+        def fbranch(x, a):
+            return a * x * x if float(x) > 0.5 * (lo_b + hi_b) else torch.ones_like(x) + 0.0 * x
+        xg, wg = _np.polynomial.legendre.leggauss(nb)
+        xs_ = 0.5 * (hi_b - lo_b) * xg + 0.5 * (hi_b + lo_b)
+        want_v = sum(0.5 * (hi_b - lo_b) * w_ * (float(a) * x_ * x_ if x_ > 0.5 * (lo_b + hi_b) else 1.0) for x_, w_ in zip(xs_, wg))
+        want_g = sum(0.5 * (hi_b - lo_b) * w_ * x_ * x_ for x_, w_ in zip(xs_, wg) if x_ > 0.5 * (lo_b + hi_b))
+        try:
+            vb = quad(fbranch, torch.tensor(lo_b, dtype=DT), torch.tensor(hi_b, dtype=DT), params=(a,), n=nb)
+            gb, = torch.autograd.grad(vb, a, allow_unused=True)
+            cmp("branching-integrand:value", vb.detach(), torch.tensor(want_v, dtype=DT), 1e-12)
+            cmp("branching-integrand:da", gb, torch.tensor(want_g, dtype=DT), 1e-12)
+        except Exception as e:
+            ctx.fail("oracle", "quadgrad:branching-integrand:exception", {"interval": [lo_b, hi_b], "n": nb}, repr(e)[:300], want_g)
     # infinite limit
     try:
         v = quad(lambda x, a: torch.exp(-a * x * x), 0.0, math.inf, params=(a,), n=150)
